@@ -72,6 +72,20 @@ def gen_cases(rng, tier):
         yield {"kind": "gp", "name": name, "sched_seed": rng.randrange(10 ** 6), "seed": rng.randrange(10 ** 9),
                "cs_kind": "cont", "n_workers": 2, "max_events": 40, "style": "distinct", "p_fail": 0, "max_t": 9,
                "extra": {"brackets": 1, "num_init_random": 3}}
+    # optional dictionary arguments left to their defaults in the twins and given explicitly in the instance created between them
+    for i in range(4 if tier == "quick" else 30):
+        name = ["hb-rush_stopping", "hb-rush_promotion"][i % 2]
+        yield {"kind": "inproc", "name": name, "sched_seed": rng.randrange(10 ** 6), "seed": rng.randrange(10 ** 9),
+               "cs_kind": rng.choice(["mixed", "cont"]), "n_workers": rng.randint(2, 5), "max_events": 120, "style": "hurdle",
+               "p_fail": 0, "max_t": 27, "extra": {"brackets": 1, "default_rung_system_kwargs": True},
+               "perturb_seed": rng.randrange(10 ** 6)}
+    # PBT with a population large enough for the upper quantile to hold several trials (the exploit step then really draws)
+    for i in range(4 if tier == "quick" else 40):
+        yield {"kind": "inproc", "name": "pbt", "sched_seed": rng.randrange(10 ** 6), "seed": rng.randrange(10 ** 9),
+               "cs_kind": rng.choice(["mixed", "cont"]), "n_workers": rng.randint(5, 8), "max_events": 200, "style": "distinct",
+               "p_fail": 0, "max_t": 27, "extra": {"population_size": 8, "quantile_fraction": rng.choice([0.5, 0.4, 0.25]),
+                                                    "perturbation_interval": rng.choice([1, 2])},
+               "perturb_seed": rng.randrange(10 ** 6)}
     # GP searchers with several evaluations pending at a suggestion (joint fantasy samples), and DyHPO in its model-based phase
     # with a small cap on the data the surrogate is fitted to (random subsample); appended: the cases above stay the same
     for i in range(2 if tier == "quick" else 10):
@@ -143,6 +157,8 @@ def run_impl(spec):
             if isinstance(oextra.get("brackets"), int) and name != "hb-pasha":
                 oextra["brackets"] = oextra["brackets"] % 3 + 1
             oextra["reduction_factor"] = 2 if oextra.get("reduction_factor", 3) == 3 else 3
+            if oextra.pop("default_rung_system_kwargs", None):
+                oextra["num_threshold_candidates"] = 3   # the twins leave rung_system_kwargs to its default, this instance does not
             omax_t = 27 if spec["max_t"] == 9 else (9 if spec["max_t"] == 27 else spec["max_t"])
             try:
                 other = g.make_scheduler(name, "min", spec["sched_seed"] + 1,
